@@ -70,6 +70,28 @@ Proof.
 Qed.
 Print Assumptions C10_stale_refuted.
 
+(* ... and with structural validation ON (the default of every entry point) a stale entry can never be stored, whatever the input:
+   the committed state is not conformant (the props group does not hold the named property), validation rejects it, write_arrays
+   raises ValueError and ends in `cleaned` (C05_reject_frame: nodes, edges and the geff attribute gone, nothing else touched).
+   Together with C10_props (inputs without stale entries): after a SUCCESSFUL validated write the metadata has exactly one entry
+   per stored property -- for all caller metadata, stale entries included. *)
+From Geff Require CrashLemmas StaleLemmas.
+Theorem C10_stale_rejected : forall k pre g md md' ov a ch tr1 which name,
+  CrashLemmas.exists_geff k pre = false ->
+  CrashLemmas.write_body g md (init pre) = (mkst (Some (ZG a ch)) tr1, Ok md') ->
+  StaleLemmas.stale_entry (ZG (aset "geff" (AGeff (Some md')) a) ch) md' which name ->
+  exists tr, write_arrays k g md true ov (init pre)
+             = (mkst (CrashLemmas.cleaned k (aset "geff" (AGeff (Some md')) a) ch) tr, Err ValueError).
+Proof. exact StaleLemmas.stale_write_rejected. Qed.
+Print Assumptions C10_stale_rejected.
+
+(* the witness of C10_stale_refuted with validation on: refused, and nothing of it is left *)
+Example C10_stale_rejected_example :
+  run (write_arrays KObj (mkwg (mkarr DU8 [1%nat] [3]%Z) (mkarr DU8 [0%nat; 2%nat] []) (Some []) (Some []))
+                    (mkmd true None [("ghost", mkpm DI8 false None None None)] [] 0%Z) true false) None
+  = (Some (ZG [] []), Err ValueError).
+Proof. vm_compute. reflexivity. Qed.
+
 (* non-vacuity: the example graph of C01 (stale range 0..9 on axis x, a masked float16 matrix, a var-length property) *)
 Example C10_nonvacuous :
   exists md', final_metadata C01.ex_g C01.ex_md = Ok md' /\
